@@ -6,7 +6,7 @@ from vf.tape import Fail, notrace
 
 PROPERTY = 'C16'
 SLOTS = [('e0', '/'), ('e0', '/a'), ('e1', '/')]
-KINDS = ['connect', 'save', 'block', 'client-disconnect', 'server-disconnect']
+KINDS = ['connect', 'save', 'save-empty', 'block', 'nested-block', 'client-disconnect', 'server-disconnect']
 OPS = [(k, i) for k in KINDS for i in range(len(SLOTS))] + [('lose-reopen', 'e0'), ('lose-reopen', 'e1')]
 
 
@@ -43,6 +43,19 @@ def h(t, part):
             return w.call(go())
         with w.s.session(sid, namespace=ns) as sess:
             sess[key] = val
+
+    def nested(sid, ns, k1, v1, k2, v2):
+        if asyncio_:
+            async def go():
+                async with w.s.session(sid, namespace=ns) as a:
+                    a[k1] = v1
+                    async with w.s.session(sid, namespace=ns) as b:
+                        b[k2] = v2
+            return w.call(go())
+        with w.s.session(sid, namespace=ns) as a:
+            a[k1] = v1
+            with w.s.session(sid, namespace=ns) as b:
+                b[k2] = v2
 
     def check_all(where):
         for (e, ns), sid in sorted(live.items()):
@@ -96,6 +109,17 @@ def h(t, part):
             w.call(w.s.save_session(sid, val, namespace=ns))
             model[sid] = dict(val)
             saved_once = True
+        elif kind == 'save-empty':
+            w.call(w.s.save_session(sid, {}, namespace=ns))
+            model[sid] = {}
+            saved_once = True
+        elif kind == 'nested-block':
+            v = t.int(-3, 3)
+            nested(sid, ns, 'o%d' % step, v, 'i%d' % step, 7)
+            model[sid] = dict(model[sid])
+            model[sid]['o%d' % step] = v
+            model[sid]['i%d' % step] = 7
+            saved_once = True
         elif kind == 'block':
             v = t.int(-3, 3)
             block(sid, ns, 'm%d' % step, v)
@@ -130,7 +154,8 @@ META = dict(
                 'against a reference map sid -> contents; after every operation every live session is read back.',
     bounds={'quick': 'histories of 3 operations from {CONNECT, save_session, session() block, client DISCONNECT, '
                      'server.disconnect} x 3 slots (e0:/, e0:/a, e1:/) + {transport loss and re-open} x 2 transports, '
-                     'starting with all three slots connected; session values are dicts with a symbolic int',
+                     'starting with all three slots connected; also save_session({}) and two nested session() blocks; session '
+                     'values are dicts with a symbolic int',
             'thorough': 'same with 4 operations'},
     outside=['session contents other than small dicts', 'concurrent access to one session'],
     stubs=['engine.io server -> FakeEio/FakeAEio: get_session returns the transport\'s dict, which dies with the '
